@@ -16,13 +16,13 @@ def run(ctx):
     vlib.model_check_many(ctx, [dict(module_rel="set/SplitListMC.tla", cfg_rel="set/SplitList_q.cfg", workers=2),
                                 dict(module_rel="set/SplitListMC.tla", cfg_rel="set/SplitList_bad_RegularPlusOne.cfg", workers=2, expect_violation="Parity"),
                                 dict(module_rel="set/SplitListMC.tla", cfg_rel="set/SplitList_bad_PublishEarly.cfg", workers=2, expect_violation="LinOK"),
-                                dict(module_rel="set/SplitListMC.tla", cfg_rel="set/SplitList_bad_NoParentInit.cfg", workers=4, expect_violation="LinOK"),
                                 # Feldman.tla (trie of array nodes, traverse / insert / do_erase / search / expand_slot with the "converting" state; presence witnesses
                                 # per running operation).  Refuted: seeded change C14 (erase gives up when the slot changed), expansion without the converting state
                                 dict(module_rel="set/FeldmanMC2.tla", cfg_rel="set/Feldman_q.cfg", workers=2),
                                 dict(module_rel="set/FeldmanMC2.tla", cfg_rel="set/Feldman_bad_erasegivesup.cfg", workers=2, expect_violation="LinOK"),
                                 dict(module_rel="set/FeldmanMC2.tla", cfg_rel="set/Feldman_bad_noconverting.cfg", workers=2, expect_violation="Reachable")] +
                                ([] if q else [dict(module_rel="set/SplitListMC.tla", cfg_rel="set/SplitList_q3.cfg", workers=8, timeout=3000),
+                                              dict(module_rel="set/SplitListMC.tla", cfg_rel="set/SplitList_bad_NoParentInit.cfg", workers=4, expect_violation="LinOK", timeout=3000),
                                               dict(module_rel="set/FeldmanMC2.tla", cfg_rel="set/Feldman_q3.cfg", workers=8, timeout=3000)]), par=6)
     n = 0 if q else 8
     deep = [("dfs", 1500 if q else 300000, 2 if q else 3)]
